@@ -102,7 +102,11 @@ func (x *h) lockTableRound(messages, workers int, runFor time.Duration) (int64, 
 				case 0:
 					_ = st.Set(id, bytes.NewReader(literal))
 				case 1:
-					_ = st.Delete(id)
+					if i%3 == 0 { // Delete(ids...) over several messages: one acquire/release per ID
+						_ = st.Delete(id, ids[(i+w+1)%messages])
+					} else {
+						_ = st.Delete(id)
+					}
 				default:
 					_, _ = st.Get(id)
 				}
